@@ -17,6 +17,9 @@ Plan families (``cls`` of a plan case)
                 drawn, odd rounds mirrored), optionally with a few games
                 turned around or one day replaced by a copy of another
                 -> complete and mutually consistent;
+* ``doubled``   (C07 only) four rounds, every day of a single round robin
+                played twice in a row, then everything mirrored: all streaks
+                have even length, so streak minima >= 2 can be satisfied;
 * ``daywise``   every day an arbitrary perfect matching with arbitrary home
                 teams -> complete and consistent, pair counts arbitrary;
 * ``perturbed`` circle/daywise with 1-3 entries overwritten or two entries of
@@ -36,8 +39,8 @@ from hypothesis import strategies as st
 
 from vf import oracle_ttp
 
-PLAN_CLASSES = ("uniform", "circle", "daywise", "perturbed", "bye",
-                "selfplay", "pattern")
+PLAN_CLASSES = ("uniform", "circle", "doubled", "daywise", "perturbed",
+                "bye", "selfplay", "pattern")
 
 
 def n_days(n: int, rounds: int) -> int:
@@ -229,6 +232,31 @@ def circle_plans(draw: Any, n: int, rounds: int, max_flips: int = 2
 
 
 @st.composite
+def doubled_plans(draw: Any, n: int) -> list[list[int]]:
+    """Four-round plan (``D = 4(n-1)``) in which every home/away streak has an
+    even length >= 2: a single round robin whose days are each played twice
+    in a row, followed by the same with all games turned around. Every
+    pairing meets 4 times, 2:2. With fitted settings these are the feasible
+    plans for streak minima >= 2 (which the other families almost never
+    produce)."""
+    base = circle_days(n)
+    m = len(base)
+    obits = draw(st.integers(0, (1 << (m * (n // 2))) - 1))
+    relabel = draw(st.permutations(list(range(n))))
+    days = []
+    for q in range(2):
+        for r in draw(st.permutations(list(range(m)))):
+            games = []
+            for g, (a, b) in enumerate(base[r]):
+                flip = ((obits >> (r * (n // 2) + g)) & 1) ^ q
+                h, aw = (b, a) if flip else (a, b)
+                games.append((relabel[h], relabel[aw]))
+            days.append(games)
+            days.append(games)
+    return [_row_of(games, n) for games in days]
+
+
+@st.composite
 def daywise_plans(draw: Any, n: int, rounds: int) -> list[list[int]]:
     """Every day a drawn perfect matching (consecutive teams of a drawn
     permutation, the first of each pair at home)."""
@@ -367,8 +395,8 @@ def plans_of_class(cls: str, n: int, rounds: int) -> Any:
 SIZES = ((4, 1), (4, 2), (4, 2), (4, 3), (6, 1), (6, 2), (6, 2), (6, 3),
          (8, 1), (8, 2), (8, 3))
 CLASS_MIX = ("uniform", "circle", "circle", "circle", "circle", "circle",
-             "daywise", "daywise", "perturbed", "perturbed", "bye",
-             "selfplay", "pattern")
+             "doubled", "daywise", "daywise", "perturbed", "perturbed",
+             "bye", "selfplay", "pattern")
 
 
 @st.composite
@@ -379,7 +407,11 @@ def plan_cases(draw: Any, sizes: tuple = SIZES, classes: tuple = CLASS_MIX
     that is evaluated first with the same objective object (0 = none)."""
     n, rounds = draw(st.sampled_from(sizes))
     cls = draw(st.sampled_from(classes))
-    plan = draw(plans_of_class(cls, n, rounds))
+    if cls == "doubled":
+        n, rounds = draw(st.sampled_from([4, 6])), 4
+        plan = draw(doubled_plans(n))
+    else:
+        plan = draw(plans_of_class(cls, n, rounds))
     sett = draw(settings_for(n, rounds, plan))
     return {"n": n, "rounds": rounds, "st": sett, "cls": cls,
             "plan": plan, "pre": draw(st.integers(0, 3))}
